@@ -196,7 +196,21 @@ def failing_edits(sim, rng):
                 setq(n, "data_stored", -(abs(cur[1]) + 1.0) * 1e7 * f, cur[2], "update_full_cumulative_storage_need")
             if cls == "Job":
                 setq(n, "request_duration", 0.0, "s", "update_hourly_data_transferred_per_usage_pattern")
-        elif cls == "UsagePattern" and not isinstance(obj.nb_usage_journeys_in_parallel, EmptyExplainableObject):
+        if cls == "WebApplicationJob":
+            # the packaged benchmark has no row for (rust-actix-sqlx, mysql): an allowed value whose look-up fails
+            svc = o["attrs"]["service"][1]
+            if spec["objs"][svc]["attrs"]["technology"][1] == "rust-actix-sqlx" and \
+                    o["attrs"]["implementation_details"][1] != "mysql":
+                out.append({"op": "set", "obj": n, "attr": "implementation_details", "value": ["s", "mysql"],
+                            "fault": "F2", "expect_site": "update_compute_needed"})
+        if cls == "WebApplication" and o["attrs"]["technology"][1] != "rust-actix-sqlx":
+            jobs_ = [m for m in inside if spec["objs"][m]["cls"] == "WebApplicationJob"
+                     and spec["objs"][m]["attrs"]["service"][1] == n
+                     and spec["objs"][m]["attrs"]["implementation_details"][1] == "mysql"]
+            if jobs_:
+                out.append({"op": "set", "obj": n, "attr": "technology", "value": ["s", "rust-actix-sqlx"],
+                            "fault": "F2", "expect_site": "update_compute_needed"})
+        if cls == "UsagePattern" and not isinstance(obj.nb_usage_journeys_in_parallel, EmptyExplainableObject):
             # (with no journey in parallel an empty device list does not raise: 0 * "no value" aliases objects,
             # a degenerate configuration outside the envelope)
             out.append({"op": "set", "obj": n, "attr": "devices", "value": ["refs", []], "fault": "F2",
